@@ -156,17 +156,30 @@ pub fn check(case: &Case, obs: &mut Obs) -> Verdict {
             let (text, uo) = textwrap::unfill(s);
             obs.calls += 1;
             let lines: Vec<&str> = s.lines().collect();
-            if let Some(first) = lines.first() {
-                if !first.starts_with(uo.initial_indent) {
-                    return Verdict::Violated(format!("initial indent {:?} is not a prefix of the first line {:?}", uo.initial_indent, first));
+            // "prefixes of the lines they describe": the initial indent describes the first line, the subsequent
+            // indent the later ones. Empty lines carry no indentation; whether the *first* line means the first
+            // line of the input or the first line with content is not said, so both readings are admitted.
+            let describes = |ls: &[&str]| -> Result<(), String> {
+                if let Some(first) = ls.first() {
+                    if !first.starts_with(uo.initial_indent) {
+                        return Err(format!("initial indent {:?} is not a prefix of the first line {:?}", uo.initial_indent, first));
+                    }
+                } else if !uo.initial_indent.is_empty() {
+                    return Err(format!("initial indent {:?} for input without lines", uo.initial_indent));
                 }
-            } else if !uo.initial_indent.is_empty() {
-                return Verdict::Violated(format!("initial indent {:?} for input without lines", uo.initial_indent));
-            }
-            for l in lines.iter().skip(1) {
-                if !l.is_empty() && !l.starts_with(uo.subsequent_indent) {
-                    return Verdict::Violated(format!("subsequent indent {:?} is not a prefix of line {:?}", uo.subsequent_indent, l));
+                for l in ls.iter().skip(1) {
+                    if !l.is_empty() && !l.starts_with(uo.subsequent_indent) {
+                        return Err(format!("subsequent indent {:?} is not a prefix of line {:?}", uo.subsequent_indent, l));
+                    }
                 }
+                Ok(())
+            };
+            if let Err(e) = describes(&lines) {
+                let non_empty: Vec<&str> = lines.iter().copied().filter(|l| !l.is_empty()).collect();
+                if non_empty.len() == lines.len() || describes(&non_empty).is_err() {
+                    return Verdict::Violated(e);
+                }
+                obs.bump("indents_describe_non_empty_lines");
             }
             if !is_prefix_only(uo.initial_indent) || !is_prefix_only(uo.subsequent_indent) {
                 return Verdict::Violated(format!("indents {:?} / {:?} contain non-prefix characters", uo.initial_indent, uo.subsequent_indent));
